@@ -379,8 +379,19 @@ func (P *Prog) litValue(t Term) (string, bool) {
 	return "", false
 }
 
+// closureKey lets function names share the identifier space of typeID.
+type closureKey struct{ name string }
+
+func (closureKey) Underlying() types.Type { return nil }
+func (c closureKey) String() string       { return "closure of " + c.name }
+
 func (P *Prog) typeID(t types.Type) int {
-	k := types.TypeString(t, nil)
+	var k string
+	if c, ok := t.(closureKey); ok {
+		k = c.String()
+	} else {
+		k = types.TypeString(t, nil)
+	}
 	if id, ok := P.typeIDs[k]; ok {
 		return id
 	}
